@@ -192,6 +192,10 @@ def generate(seed: int, tier: str = "quick") -> dict:
         first = rb.random() < 0.7
         world["markets"] = [other, mw] if first else [mw, other]
         faults.append({"kind": "bystander_pool_registered_" + ("first" if first else "last"), "bar": 0})
+    rd = R.sub(seed, "derived_columns")
+    if rd.random() < 0.12:
+        mw["derived_columns"] = rd.choice(["stale", "stale", "absent"])
+        faults.append({"kind": "informational_volume_columns_" + mw["derived_columns"]})
     return {"property": ID, "seed": seed, "world": world, "program": program, "faults": faults}
 
 
